@@ -20,6 +20,9 @@
 #include "c15_editor_ref.h"
 size_t g_k;
 int g_ed_calls, g_ed_ret; char g_ed_c, g_ed_at_k; unsigned g_ed_len, g_ed_cursor, g_ed_browse;
+#ifdef REPLAY
+#include "igris/util/numconvert.c"   /* native runs: vt100.h helpers (unused by vterm.c) reference igris_i32toa */
+#endif
 #include "igris/shell/vterm.c"
 #include "c15_libc.h"
 #include "c15_readline_contract.h"
